@@ -1,4 +1,5 @@
 import CircBuf.Lemmas.Tie.PushPop
+import CircBuf.Lemmas.Tie.Remove
 import CircBuf.Lemmas.Tie.Swap
 import CircBuf.Props.C04
 /-!
@@ -50,5 +51,12 @@ theorem C04_swap_remove_back_src (i : Nat) (s1 s2 : Sys) (h1 : Inv s1.buf) (h2 :
       Inv b1 ∧ Inv b2 ∧ abs b1 = abs b2 ∧ b1.cap = b2.cap := by
   first
   | (rw [tie_swap_remove_back _ s1 h1, tie_swap_remove_back _ s2 h2]; exact C04_swap_remove_back i s1 s2 h1 h2 hcap habs)
+
+theorem C04_remove_src (i : Nat) (s1 s2 : Sys) (h1 : Inv s1.buf) (h2 : Inv s2.buf)
+    (hcap : s1.buf.cap = s2.buf.cap) (habs : abs s1.buf = abs s2.buf) :
+    ∃ r b1 b2, Gen.remove i s1 = (.ok r, { s1 with buf := b1 }) ∧ Gen.remove i s2 = (.ok r, { s2 with buf := b2 }) ∧
+      Inv b1 ∧ Inv b2 ∧ abs b1 = abs b2 ∧ b1.cap = b2.cap := by
+  first
+  | (rw [tie_remove _ s1 h1, tie_remove _ s2 h2]; exact C04_remove i s1 s2 h1 h2 hcap habs)
 
 end CircBuf
